@@ -3,7 +3,7 @@ from ..engine import analyze_fn, program
 from ..terms import T, Term, pp
 from .. import prov
 from ..prov import norm, show, P, F_, C
-from ..hashrules import soundness, gnu_hash_form, fact_norms, wh, walk_exits, range_of_next
+from ..hashrules import soundness, gnu_hash_form, fact_norms, wh, walk_exits, walk_compares, early_exits, cond_holds, range_of_next
 
 LEVEL = "other"
 EXPLANATION = (
@@ -120,6 +120,16 @@ def run(ctx, rep):
                             and hv in y[1][1:] and any(chain_word(z) for z in y[1][1:]):
                         okm = True
             rep.require(okm, "linkage", "chain:match" + kk, w, "hash | 1 == chain[i] | 1", "the successful path does not compare the hash with the chain entry ignoring bit 0")
+            # answers given before the walk: only for the reasons for which a well-formed table cannot contain the name
+            zero = lambda x: ("Eq",) + tuple(sorted((x, C(0)), key=repr))
+            early_atoms = {zero(nb), ("Lt", nb[1], nb[2]), zero(F_(hdr, "nbloom")), bit(hv), bit(h2), ("Lt", bucket, so)}
+
+            def early_ok(d, val, _atoms=early_atoms):
+                atom, pol = cond_holds(d, val)
+                if atom[0] == "Eq" and len(atom) == 3:
+                    atom = ("Eq",) + tuple(sorted(atom[1:], key=repr))
+                return pol and atom in _atoms
+            early_exits(anc, rep, "linkage", "find" + kk, w, early_ok, "no buckets, no bloom words, a clear bloom bit, bucket value below symoffset")
         # returned index = chain index + symoffset
         from ..hashrules import some_outcomes
         for v, st in some_outcomes(an):
@@ -145,10 +155,30 @@ def run(ctx, rep):
                     return (val == "otherwise") == set_when_true or "leaves when the stop bit is clear"
             return None
         walk_exits(an, rep, "linkage", "find", w, stop, "chain range exhausted, or stop bit set")
+        # an entry may be passed over without a name comparison only because its hash differs from the query's (ignoring bit 0)
+        def chain_word(z):
+            return isinstance(z, tuple) and z and z[0] == "payload" and z[1][0] == "call" and z[1][1] == "parse::ParsingTable::get" and z[1][2][0] == F_(me, "chains")
+
+        def hash_mismatch(d, val):
+            if d[0] not in ("Eq", "Ne") or len(d) != 3:
+                return False
+            differ = (val == "0") if d[0] == "Eq" else (val == "otherwise")
+            if not differ:
+                return False
+            for x, y in ((d[1], d[2]), (d[2], d[1])):
+                if x == ("BitOr",) + tuple(sorted((hv, C(1)), key=repr)) and isinstance(y, tuple) and y[0] == "BitOr" and C(1) in y and any(chain_word(z) for z in y[1:]):
+                    return True
+                if x == C(0) and isinstance(y, tuple) and y[0] == "Shr" and y[2] == C(1) and isinstance(y[1], tuple) and y[1][0] == "BitXor" \
+                        and hv in y[1][1:] and any(chain_word(z) for z in y[1][1:]):
+                    return True
+            return False
+        walk_compares(an, rep, "linkage", "find", w, hash_mismatch, " unless the entry's hash differs from the query's")
     # constructor: 16-byte header, nbloom class-sized words, nbucket u32 buckets, chains = the rest
     fn = F.fn("hash::GnuHashTable::new")
     if fn is not None:
         an2 = analyze_fn(F, fn)
+        from ..hashrules import ctor_refusals
+        ctor_refusals(rep, "linkage", "new", an2, wh(fn["span"]))
         data = P(3)
         H = prov.PARSE("hash::GnuHashHeader", P(1), P(2), C(0), data)
         got = {}
